@@ -5,6 +5,8 @@ import (
 	"strconv"
 	"sync"
 	"sync/atomic"
+
+	"github.com/form3tech-oss/f1/v2/internal/verifhook"
 )
 
 func newTriggerPool(m *PoolManager, numWorkers int) *TriggerPool {
@@ -34,6 +36,7 @@ func (p *TriggerPool) Trigger(ctx context.Context, numJobs int) {
 	if ctx.Err() != nil {
 		return
 	}
+	verifhook.At("pool.trigger.accepted")
 	p.sendJobsForExecution(numJobs)
 }
 
@@ -76,6 +79,7 @@ func (p *TriggerPool) stop() {
 
 func (p *TriggerPool) maxIterationsReached() {
 	p.jobsToExecute.set(0)
+	verifhook.At("pool.limit.discarded")
 	p.workerCtxCancel()
 }
 
@@ -112,6 +116,7 @@ func (p *TriggerPool) run(
 		if p.jobsToExecute.none() {
 			p.waitForNewJobs()
 		}
+		verifhook.At("pool.worker.pretake")
 
 		if p.jobsToExecute.take() {
 			iteration, err := p.manager.NextIteration()
